@@ -221,6 +221,13 @@ pub fn exec(toks: &[&str]) -> String {
                 Err(_) => "err".into(),
             }
         }
+        ["jtext", t] => {
+            let text = match to_json(t) { Some(x) => x, None => return "bad-op".into() };
+            match SlurmFile::from_str(&text) {
+                Ok(f) => format!("ok {}", hex(f.to_string().as_bytes())),
+                Err(_) => "err".into(),
+            }
+        }
         ["drop", ft, pt] => {
             let ftext = match to_json(ft) { Some(x) => x, None => return "bad-op".into() };
             let text = format!("{{\"slurmVersion\":2,\"validationOutputFilters\":{},\"locallyAddedAssertions\":{}}}", ftext, EMPTY_ASSERT);
@@ -228,6 +235,14 @@ pub fn exec(toks: &[&str]) -> String {
                 (Ok(f), Some(p)) => {
                     let r = f.drop_payload(&p);
                     if r != f.filters.drop_payload(&p) { return "drop-entrypoints-disagree".into(); }
+                    // the statement does not mention the file's version: the same filters in a version-1 file
+                    // (when the library reads that) and in a file made by SlurmFile::new decide the same (round 15)
+                    let text1 = text.replacen("\"slurmVersion\":2", "\"slurmVersion\":1", 1);
+                    if let Ok(f1) = SlurmFile::from_str(&text1) {
+                        if f1.drop_payload(&p) != r { return format!("{} but-version-1-file-says-{}", r, !r); }
+                    }
+                    let f3 = SlurmFile::new(f.filters.clone(), f.assertions.clone());
+                    if f3.drop_payload(&p) != r { return format!("{} but-new-file-says-{}", r, !r); }
                     r.to_string()
                 }
                 _ => "bad-op".into(),
@@ -285,7 +300,10 @@ fn filters(p: &[String], b: &[String], a: Option<&[String]>) -> String {
 }
 
 fn comment(rng: &mut Rng) -> String {
-    let pool = ["", "x", "a \"quoted\" \\ comment", "tab\tnew\nline", "ünïcödé ☃", "\u{1}\u{1f}", "{\"json\":[1,2]}", "</>&amp;"];
+    let pool = ["", "x", "a \"quoted\" \\ comment", "tab\tnew\nline", "ünïcödé ☃", "\u{1}\u{1f}", "{\"json\":[1,2]}", "</>&amp;",
+        // every control character, DEL, the characters some JSON writers escape and serde_json does not
+        "\u{0}\u{1}\u{2}\u{3}\u{4}\u{5}\u{6}\u{7}\u{8}\u{9}\u{a}\u{b}\u{c}\u{d}\u{e}\u{f}\u{10}\u{11}\u{12}\u{13}\u{14}\u{15}\u{16}\u{17}\u{18}\u{19}\u{1a}\u{1b}\u{1c}\u{1d}\u{1e}\u{1f} \u{7f}",
+        "/\u{2028}\u{2029}\u{80}\u{ffff}\u{10000}", "\\u0041 \\n \\\"", "\"", "\\"];
     format!("S{}", hex(rng.pick(&pool).as_bytes()))
 }
 
@@ -447,10 +465,12 @@ pub fn generate(ctx: &mut Ctx) {
     for _ in 0..(if thorough { 30_000 } else { 4_000 }) {
         let f = random_file(&mut rng);
         ctx.case(&format!("json {}", f));
+        ctx.case(&format!("jtext {}", f));
         for _ in 0..3 {
             let m = mutate(&mut rng, &f);
             if m != f && to_json(&m).is_some() {
                 ctx.case(&format!("json {}", m));
+                if rng.chance(1, 3) { ctx.case(&format!("jtext {}", m)); }
             }
         }
         // assertions payload and version choice
